@@ -5,7 +5,7 @@ from __future__ import annotations
 import ast
 
 from ..classes import CORE, RULES, ClassInfo
-from ..loader import AnalysisError, World, module_of
+from ..loader import AnalysisError, World, enclosing, module_of
 from ..mutate import edit_def, remove_stmt, replace_expr, replace_stmt
 from ..paths import Path, function_paths
 from ..rulesem import LEFT, RIGHT, classes_of_term, method_paths, rule_info
@@ -309,6 +309,73 @@ def run(ctx, ck) -> None:
                       f'rules {prods[:4]} may produce a {k} (e.g. a block-diagonal of identities reduces to the identity), but after a rewrite the driver never re-applies the n-ary rule for {k}: the normal form (no identity factor, one scalar) is not reached', instance=f're-normalise {k}')
         else:
             ck.ok('N4', fn, f'no rule can produce a {k}', instance=f're-normalise {k}', nontrivial=False)
+
+    _stateless(ck, world, table)
+
+    # ------------------------------------------------------------------ N6 driver order (shared with C01.R-DRV / R-NARY)
+    from . import c01
+
+    sub = type(ck)(ck.pid)
+    c01._r_drv(sub, world, table, strict_order=True)
+    c01._r_nary(sub, world, table)
+    for o in sub.obs:
+        if o.rule.endswith(('R-DRV', 'R-NARY')):
+            o.rule = f'{ck.pid}.N6'
+            ck.obs.append(o)
+    ck.floor('N6', sum(1 for o in ck.obs if o.rule.endswith('N6')), 6, 'driver obligations (operands reduced first, n-ary rules before the scan)')
+
+
+MUTATORS = {'add', 'append', 'extend', 'update', 'setdefault', 'pop', 'popitem', 'remove', 'discard', 'clear', 'insert', '__setitem__', 'appendleft'}
+CACHES = {'functools.lru_cache', 'functools.cache', 'functools.cached_property'}
+
+
+def _stateless(ck, world, table) -> None:
+    """N5: whether a pattern is rewritten depends on the pair alone.
+
+    The registry holds one instance of every rule for the life of the process and the driver is re-created per call, so a
+    rule method that stores into its instance (or class, or a module global), or that is memoised, makes the outcome for
+    one pair depend on the pairs seen before - in the same chain or in an earlier one.
+    """
+    base = table.get(f'{RULES}.AbstractRule')
+    fns = []
+    for cls in [base] + list(table.subclasses(base, strict=True)):
+        for name, f in cls.own.items():
+            if isinstance(f, ast.FunctionDef) and name != '__init_subclass__':
+                fns.append((cls, f))
+    ck.floor('N5', len(fns), 15, 'rule methods scanned for retained state')
+    nbad = 0
+    for cls, f in fns:
+        me = f.args.args[0].arg if f.args.args else None
+        decos = {world.qualify(module_of(f), d.func if isinstance(d, ast.Call) else d) for d in f.decorator_list}
+        static = bool(decos & {'staticmethod'})
+        if decos & CACHES:
+            nbad += 1
+            ck.bad('N5', f, f'{cls.name}.{f.name} is memoised: its outcome for a pair is retained across calls', instance=f'{cls.name}.{f.name} cache')
+        for n in ast.walk(f):
+            why = None
+            if isinstance(n, (ast.Global, ast.Nonlocal)) and enclosing(n, (ast.FunctionDef, ast.Lambda)) is f:
+                why = f'declares {", ".join(n.names)} global'
+            elif me and not static and f.name != '__init__' and isinstance(n, ast.Attribute) and isinstance(n.ctx, (ast.Store, ast.Del)) and _rooted(n.value, me):
+                why = f'stores {ast.unparse(n)}'
+            elif me and not static and isinstance(n, ast.Subscript) and isinstance(n.ctx, (ast.Store, ast.Del)) and _rooted(n.value, me) and isinstance(n.value, ast.Attribute):
+                why = f'stores into {ast.unparse(n.value)}'
+            elif me and not static and isinstance(n, ast.Call) and isinstance(n.func, ast.Attribute) and n.func.attr in MUTATORS and isinstance(n.func.value, ast.Attribute) and _rooted(n.func.value, me):
+                why = f'mutates {ast.unparse(n.func.value)}'
+            if why:
+                nbad += 1
+                ck.bad('N5', n, f'{cls.name}.{f.name} {why}: the rule instance lives in the registry for the whole process, so whether a pair is rewritten depends on '
+                       'the pairs the rule has seen before (an irreducible pair of the same classes can disable the pattern for every later chain)', instance=f'{cls.name}.{f.name} state')
+    if not nbad:
+        ck.ok('N5', fns[0][1], f'no rule method stores into its instance, its class or a module global, and none is memoised ({len(fns)} methods): '
+              'the outcome for a pair depends on the pair alone', instance='rules keep no state')
+
+
+def _rooted(e: ast.AST, name: str) -> bool:
+    while isinstance(e, (ast.Attribute, ast.Subscript)):
+        e = e.value
+    if isinstance(e, ast.Call) and isinstance(e.func, ast.Name) and e.func.id == 'type' and e.args:
+        e = e.args[0]
+    return isinstance(e, ast.Name) and e.id == name
 
 
 def _show_cursor(val, nonpos) -> str:
